@@ -1121,7 +1121,17 @@ def r1214(ctx):
                         else:
                             sites.append((q, c, None, f"{last_name(c)} does not multiply its nsteps and subcycles parameters"))
             for e, n in found:
-                sites.append((q, n if not isinstance(n, ast.keyword) else e, _monomial(e), short(e, 50)))
+                e2 = e
+                if isinstance(e, ast.Name):
+                    # a budget held in a local (`nsteps = path.maxlen * self.subcycles`) is the same budget
+                    from ..flow import deref as _deref, flow_of as _flow_of
+                    from ..loader import enclosing_stmt as _encl
+                    try:
+                        _fl = _flow_of(f)
+                        e2, _ = _deref(_fl, e, _fl.cfg.node_of(_encl(e)))
+                    except Exception:
+                        e2 = e
+                sites.append((q, n if not isinstance(n, ast.keyword) else e, _monomial(e2), short(e2, 50)))
     by_engine = {}
     for q, node, mono, txt in sites:
         by_engine.setdefault(q, []).append((node, mono, txt))
